@@ -123,6 +123,11 @@ package dagsync
 //@   nobody
 //@   pure
 
+// Selector construction is ipld-prime territory (dependency); used through its arguments only.
+//@ func ExploreRecursiveWithStopNode
+//@   nobody
+//@   pure
+
 // SyncAdChain. Decision tables written from the property:
 //   depth limit = the per-call limit if given; else the first-sync depth if there is no
 //                 stop link and one is configured; else the subscriber-wide limit;
@@ -163,7 +168,6 @@ package dagsync
 //@   at call handle#1: assert ite(opts.headAdCid != cid.Undef, nextCid == opts.headAdCid && !headQueried, headQueried)
 //@   at call GetLatestSync#1: after assume result != nil ==> typeis(result, "cidlink.Link")
 //@   assumes str(cid.Undef.str) == str("")
-//@   maypanic
 //@   ensures-local old(s.expSyncClosed) ==> result1 != nil && count("wg.add:expSyncWG") == 0 && count("call:handle") == 0
 //@   ensures-local !old(s.expSyncClosed) ==> count("wg.add:expSyncWG") == 1 && count("wg.done:expSyncWG") == 1
 //@   ensures-local result1 != nil ==> count("call:sendSyncFinishedEvent") == 0 && count("call:updatePeerstore") == 0 && str(result0.str) == str("")
